@@ -17,6 +17,7 @@
    at `timeout <= now`).  Functions carry the Rust name with the prefix dns_.
    Panic sources: `self.queries[handle.0]`, `.unwrap()` on a free slot, cancel of a free slot
    (documented panics of the API: Panic in the model); `servers[pq.server_idx]` (guarded);
+   set_hop_limit(Some(0)) (documented panic: Panic, state unchanged);
    `payload[..repr.buffer_len()]` on the 512-byte buffer (checked slice; excluded by the
    invariant |name| <= DNS_MAX_NAME_SIZE in Proofs/DnsProofs.v).  Instant + Duration overflow
    (i64 microseconds) is not modelled (unbounded Z).
@@ -57,7 +58,8 @@ Inductive dns_qstate :=
 Record dns_sock := mkSock {
   ds_servers : list (list Z);
   ds_queries : list (option dns_qstate);
-  ds_owned : bool           (* ManagedSlice::Owned (grows) or Borrowed (fixed) *)
+  ds_owned : bool;          (* ManagedSlice::Owned (grows) or Borrowed (fixed) *)
+  ds_hop_limit : option Z   (* hop_limit: Option<u8> *)
 }.
 
 Definition dns_pq_with_name (pq : dns_pending) (n : list Z) : dns_pending :=
@@ -81,10 +83,29 @@ Definition dns_truncate_servers (cfg : dns_cfg) (servers : list (list Z)) : list
   firstn (Z.to_nat (Z.min (Z.of_nat (length servers)) (c_max_servers cfg))) servers.
 
 Definition dns_new (cfg : dns_cfg) (servers : list (list Z)) (nslots : nat) (owned : bool) : dns_sock :=
-  mkSock (dns_truncate_servers cfg servers) (repeat None nslots) owned.
+  mkSock (dns_truncate_servers cfg servers) (repeat None nslots) owned None.
 
 Definition dns_update_servers (cfg : dns_cfg) (s : dns_sock) (servers : list (list Z)) : dns_sock :=
-  mkSock (dns_truncate_servers cfg servers) (ds_queries s) (ds_owned s).
+  mkSock (dns_truncate_servers cfg servers) (ds_queries s) (ds_owned s) (ds_hop_limit s).
+
+(* --- hop_limit / set_hop_limit: Some(0) panics ("the time-to-live value of a packet must not be
+       zero"), before anything is stored --- *)
+Definition dns_hop_limit (s : dns_sock) : option Z := ds_hop_limit s.
+
+Definition dns_set_hop_limit (s : dns_sock) (h : option Z) : dns_sock * outcome unit :=
+  match h with
+  | Some v => if v =? 0 then (s, Panic)
+              else (mkSock (ds_servers s) (ds_queries s) (ds_owned s) h, Ok tt)
+  | None => (mkSock (ds_servers s) (ds_queries s) (ds_owned s) None, Ok tt)
+  end.
+
+(* dispatch: `let hop_limit = self.hop_limit.unwrap_or(64)`; every datagram emitted by this
+   dispatch call carries it in its IP header (IpRepr::new(.., hop_limit)) *)
+Definition dns_tx_hop (s : dns_sock) : Z :=
+  match ds_hop_limit s with
+  | Some h => h
+  | None => 64
+  end.
 
 (* --- start_query --- *)
 Definition dns_E_NoFreeSlot : Z := 1.
@@ -142,7 +163,7 @@ Definition dns_find_free_query (s : dns_sock) : dns_sock * option nat :=
   | Some i => (s, Some i)
   | None =>
     if ds_owned s
-    then (mkSock (ds_servers s) (ds_queries s ++ [None]) (ds_owned s), Some (length (ds_queries s)))
+    then (mkSock (ds_servers s) (ds_queries s ++ [None]) (ds_owned s) (ds_hop_limit s), Some (length (ds_queries s)))
     else (s, None)
   end.
 
@@ -154,7 +175,7 @@ Fixpoint dns_set_nth {A} (l : list A) (i : nat) (x : A) : list A :=
   end.
 
 Definition dns_set_slot (s : dns_sock) (i : nat) (q : option dns_qstate) : dns_sock :=
-  mkSock (ds_servers s) (dns_set_nth (ds_queries s) i q) (ds_owned s).
+  mkSock (ds_servers s) (dns_set_nth (ds_queries s) i q) (ds_owned s) (ds_hop_limit s).
 
 (* start_query_raw; [txid] and [port] are cx.rand().rand_u16() / rand_source_port().
    Returns the socket (changed even on NameTooLong when an Owned slice grew) and
@@ -364,7 +385,7 @@ Definition dns_process (cfg : dns_cfg) (s : dns_sock) (dst_port : Z) (pkt : list
           do txid <- wdns_transaction_id pkt;
           do rcode <- wdns_rcode pkt;
           do qs <- dns_process_slots cfg pkt dst_port txid rcode (ds_queries s);
-          Ok (mkSock (ds_servers s) qs (ds_owned s))
+          Ok (mkSock (ds_servers s) qs (ds_owned s) (ds_hop_limit s))
   end.
 
 (* InterfaceInner::process_udp: the socket sees the datagram iff accepts() *)
@@ -453,7 +474,7 @@ Fixpoint dns_dispatch_slots (cfg : dns_cfg) (servers : list (list Z)) (now : Z) 
 Definition dns_dispatch (cfg : dns_cfg) (s : dns_sock) (now : Z) (emit_ok : bool)
   : outcome (dns_sock * dns_disp_res) :=
   do '(qs, res) <- dns_dispatch_slots cfg (ds_servers s) now emit_ok (ds_queries s);
-  Ok (mkSock (ds_servers s) qs (ds_owned s), res).
+  Ok (mkSock (ds_servers s) qs (ds_owned s) (ds_hop_limit s), res).
 
 (* --- poll_at: the earliest of retransmit_at and timeout_at over the pending queries;
        None = PollAt::Ingress --- *)
@@ -503,7 +524,9 @@ Inductive dns_event :=
 | EvGet (h : nat)
 | EvCancel (h : nat)
 | EvPoll (now : Z)
-| EvRsp (src_addr : list Z) (src_port dst_port : Z) (pkt : list Z).
+| EvRsp (src_addr : list Z) (src_port dst_port : Z) (pkt : list Z)
+| EvServers (servers : list (list Z))        (* update_servers *)
+| EvHop (h : option Z).                      (* set_hop_limit *)
 
 Inductive dns_obs :=
 | ObStart (r : outcome nat)
@@ -511,6 +534,8 @@ Inductive dns_obs :=
 | ObCancel (r : outcome unit)
 | ObPoll (txs : list dns_tx) (hang : bool)
 | ObRsp (accepted : bool)
+| ObServers
+| ObHop (r : outcome unit)
 | ObPanic.
 
 Definition dns_step (cfg : dns_cfg) (s : dns_sock) (ev : dns_event) : dns_sock * dns_obs :=
@@ -531,6 +556,8 @@ Definition dns_step (cfg : dns_cfg) (s : dns_sock) (ev : dns_event) : dns_sock *
     | Ok (s', acc) => (s', ObRsp acc)
     | _ => (s, ObPanic)
     end
+  | EvServers l => (dns_update_servers cfg s l, ObServers)
+  | EvHop h => let '(s', r) := dns_set_hop_limit s h in (s', ObHop r)
   end.
 
 Fixpoint dns_run (cfg : dns_cfg) (s : dns_sock) (evs : list dns_event) : dns_sock :=
